@@ -87,8 +87,8 @@ def prefix_sum_sites(ev, value_terms, include_sum=False):
       operand = None
       if q in ('dinosaur.jax_numpy_utils.cumsum', 'dinosaur.jax_numpy_utils.reverse_cumsum', 'numpy.cumsum', 'jax.numpy.cumsum'):
         name = q.rsplit('.', 1)[-1]
-        operand = t.a[1][0] if t.a[1] else dict(t.a[2]).get('x')
-      elif t.a[0].k == 'attr' and t.a[0].a[1] in ('cumsum',) or (include_sum and t.a[0].k == 'attr' and t.a[0].a[1] == 'sum' and 'axis' in dict(t.a[2])):
+        operand = t.a[1][0] if t.a[1] else util.call_kwargs(t).get('x')
+      elif t.a[0].k == 'attr' and t.a[0].a[1] in ('cumsum',) or (include_sum and t.a[0].k == 'attr' and t.a[0].a[1] == 'sum' and 'axis' in util.call_kwargs(t)):
         name = '.' + t.a[0].a[1]
         operand = t.a[0].a[0]
       if name is None or operand is None:
